@@ -385,6 +385,64 @@ def r_chain(E):
     return res
 
 
+def _period_record_test(pm, mod_suffix, inner):
+    """`<period>.covers(date)` where the period is a small record of the module: its method returns `self.A <= <param> <=
+    self.B`, and wherever the module builds such a record, A is None or taken with min (….min(), min(…)) and B None or
+    taken with max — the same test as `min <= date <= max` on bare dates"""
+    from .units import module_record_classes
+    if not (isinstance(inner, ast.Call) and isinstance(inner.func, ast.Attribute) and len(inner.args) == 1
+            and "simulation_date" in norm(inner.args[0])):
+        return False
+    rel, tree = pm.module_tree(mod_suffix)
+    recs = {k: v for k, v in module_record_classes(tree).items() if isinstance(v, ast.ClassDef)}
+    for rname, rc in recs.items():
+        m = next((f for f in rc.body if isinstance(f, ast.FunctionDef) and f.name == inner.func.attr), None)
+        if m is None or len(m.args.args) != 2:
+            continue
+        body = [b for b in m.body if not (isinstance(b, ast.Expr) and isinstance(b.value, ast.Constant))]
+        if not (len(body) == 1 and isinstance(body[0], ast.Return) and isinstance(body[0].value, ast.Compare)):
+            continue
+        c = body[0].value
+        me, p = m.args.args[0].arg, m.args.args[1].arg
+        if not (len(c.ops) == 2 and all(isinstance(o, ast.LtE) for o in c.ops) and norm(c.comparators[0]) == p
+                and isinstance(c.left, ast.Attribute) and norm(c.left.value) == me
+                and isinstance(c.comparators[1], ast.Attribute) and norm(c.comparators[1].value) == me):
+            continue
+        fields = [b.target.id for b in rc.body if isinstance(b, ast.AnnAssign) and isinstance(b.target, ast.Name)]
+        lo, hi = c.left.attr, c.comparators[1].attr
+        if lo not in fields or hi not in fields:
+            continue
+        # every construction of the record in the module
+        built = []
+        for n in ast.walk(tree):
+            if isinstance(n, ast.Call) and isinstance(n.func, ast.Name) and (
+                    n.func.id == rname or (n.func.id == "cls" and any(y is n for y in ast.walk(rc)))):
+                args = []
+                for a in n.args:
+                    if isinstance(a, ast.Starred) and isinstance(a.value, (ast.ListComp, ast.GeneratorExp)) \
+                            and len(a.value.generators) == 1 and isinstance(a.value.generators[0].iter, (ast.Tuple, ast.List)) \
+                            and isinstance(a.value.generators[0].target, ast.Name):
+                        from ..astutil import substitute as _sub_pr
+                        g = a.value.generators[0]
+                        args += [_sub_pr(a.value.elt, {g.target.id: x}) for x in g.iter.elts]
+                    elif isinstance(a, ast.Starred):
+                        return False
+                    else:
+                        args.append(a)
+                vals = dict(zip(fields, args))
+                vals.update({k.arg: k.value for k in n.keywords if k.arg})
+                built.append(vals)
+        if not built:
+            continue
+
+        def ok(e, word):
+            return e is None or (isinstance(e, ast.Constant) and e.value is None) or word in norm(e)
+        if all(ok(v.get(lo), "min") and ok(v.get(hi), "max") for v in built) and any(
+                v.get(lo) is not None and "min" in norm(v[lo]) for v in built):
+            return True
+    return False
+
+
 @rule("R-SIMDATE")
 def r_simdate(E):
     pm = E.pm
@@ -465,6 +523,15 @@ def r_simdate(E):
             "the date; when that input is the only hourly ancestor the period is (None, None) and the test raises TypeError",
             T2.rel, f0.lineno, "ModelingUpdate.compute_hourly_quantities_to_filter"))
     rel, fn = pm.find_function(MU, "ModelingUpdate.compute_hourly_quantities_to_filter")
+    fn_as_written = fn
+    # (the first and last hours of a series gathered in a small record read as the expressions they are built from)
+    try:
+        from ..astutil import expand_records as _xr_sd
+        from .units import module_record_classes as _mrc_sd
+        _r_sd, _t_sd = pm.module_tree(MU)
+        fn = _xr_sd(fn, pm.helper_finder("ModelingUpdate"), pm.any_helper_finder(rel), _mrc_sd(_t_sd))
+    except Exception:
+        fn = fn_as_written
     res.instances += 1
     sel = [n.test for n in ast.walk(fn) if isinstance(n, ast.If) and "simulation_date" in norm(n.test)
            and any(isinstance(c.func, ast.Attribute) and c.func.attr == "append" for c in _calls(n))]
@@ -494,6 +561,8 @@ def r_simdate(E):
         good = inner is not None and isinstance(inner, ast.Compare) and len(inner.ops) == 2 and \
             all(isinstance(o, ast.LtE) for o in inner.ops) and "min" in norm(inner.left) and \
             "simulation_date" in norm(inner.comparators[0]) and "max" in norm(inner.comparators[1])
+        if not good:
+            good = _period_record_test(pm, MU, inner)
         if not good:
             res.undecided.append(f"compute_hourly_quantities_to_filter: period test `{norm(t)[:60]}` not recognised")
         # every normal exit has passed the period test (no early return that skips it)
